@@ -1,6 +1,7 @@
 package harness
 
 import (
+	"context"
 	"encoding/json"
 	"errors"
 	"fmt"
@@ -141,6 +142,15 @@ type dbIter struct {
 	t  int
 }
 
+// dbObserver is a subscriber of statedb.Observable: the changes it has been handed since the last read
+type dbObserver struct {
+	t      int
+	mu     sync.Mutex
+	buf    [][]any
+	cancel context.CancelFunc
+	done   chan struct{}
+}
+
 type dbState struct {
 	db       *statedb.DB
 	metrics  *dbMetrics
@@ -151,6 +161,7 @@ type dbState struct {
 	chans    map[int]<-chan struct{}
 	order    []int
 	iters    map[int]*dbIter
+	obs      map[int]*dbObserver
 	dones    map[string]func(statedb.WriteTxn)
 	open     map[int]bool // write transactions not yet committed/aborted
 	held     map[int]int  // table -> open transaction holding it
@@ -564,6 +575,56 @@ func (st *dbState) exec(op dbOp) Ev {
 		}
 		return Ev{"op": "next", "it": op.It, "src": srcMap(op.Src), "take": op.Take, "cs": cs, "cw": cw,
 			"ex": exhausted, "w": w}
+	case "observe":
+		// statedb.Observable: a goroutine of the library creates a change iterator in a transaction of its own
+		// and pushes every batch to the subscriber.  Only in the sequential driver and while no table is held
+		// (the stream needs the table lock to start and to stop).
+		dt := st.tables[op.T]
+		if st.concurrent || dt == nil || len(st.open) > 0 || st.obs[op.It] != nil || st.iters[op.It] != nil {
+			return nop
+		}
+		ob := &dbObserver{t: op.T, done: make(chan struct{})}
+		ctx, cancel := context.WithCancel(context.Background())
+		ob.cancel = cancel
+		statedb.Observable[*dbObj](st.db, dt.tbl).Observe(ctx,
+			func(ch statedb.Change[*dbObj]) {
+				ob.mu.Lock()
+				ob.buf = append(ob.buf, []any{B([]byte(ch.Object.PK)), ch.Object.Val, int(ch.Revision), ch.Deleted, int(ch.Revision)})
+				ob.mu.Unlock()
+			},
+			func(error) { close(ob.done) })
+		synctest.Wait()
+		st.obs[op.It] = ob
+		return Ev{"op": "observe", "it": op.It, "t": op.T}
+	case "obsread":
+		// everything the subscriber has received since the last read: one batch as long as the script reads after
+		// every commit of the table.  Logged as the Next it stands for (fully consumed, given the snapshot src).
+		ob, ok := st.obs[op.It]
+		if !ok || len(st.open) > 0 {
+			return nop
+		}
+		if _, ok2 := st.rtxn(op.Src); !ok2 {
+			return nop
+		}
+		synctest.Wait()
+		ob.mu.Lock()
+		cs := ob.buf
+		ob.buf = nil
+		ob.mu.Unlock()
+		if cs == nil {
+			cs = [][]any{}
+		}
+		return Ev{"op": "next", "it": op.It, "src": srcMap(op.Src), "take": -1, "cs": cs, "cw": true, "ex": true, "w": 0, "observer": true}
+	case "obsstop":
+		ob, ok := st.obs[op.It]
+		if !ok || len(st.open) > 0 {
+			return nop
+		}
+		ob.cancel()
+		<-ob.done
+		synctest.Wait()
+		delete(st.obs, op.It)
+		return Ev{"op": "iterclose", "it": op.It}
 	case "iterclose":
 		di, ok := st.iters[op.It]
 		if !ok {
@@ -646,6 +707,7 @@ func runDBScript(t *testing.T, sc Script, log *Log, next int) {
 			snaps:   map[int]statedb.ReadTxn{},
 			chans:   map[int]<-chan struct{}{},
 			iters:   map[int]*dbIter{},
+			obs:     map[int]*dbObserver{},
 			dones:   map[string]func(statedb.WriteTxn){},
 			open:    map[int]bool{},
 			held:    map[int]int{},
@@ -678,6 +740,10 @@ func runDBScript(t *testing.T, sc Script, log *Log, next int) {
 		_, bad := protect(func() {
 			for _, w := range st.wtxns {
 				w.Abort()
+			}
+			for _, ob := range st.obs {
+				ob.cancel()
+				<-ob.done
 			}
 			for _, di := range st.iters {
 				di.it.Close()
